@@ -445,10 +445,13 @@ class DiskCache(_CacheBase):
 
         file_path = self._get_file_path(key)
         if file_path.exists():
-            with file_path.open("rb") as f:
-                value = (
-                    cloudpickle.load(f) if self.use_cloudpickle else pickle.load(f)  # noqa: S301
-                )
+            try:
+                with file_path.open("rb") as f:
+                    value = (
+                        cloudpickle.load(f) if self.use_cloudpickle else pickle.load(f)  # noqa: S301
+                    )
+            except FileNotFoundError:  # evicted by another process in the meantime
+                return None
             if self.with_lru_cache:
                 self.lru_cache.put(key, value)
             return value
